@@ -221,6 +221,14 @@ def _run_case(ctx: Ctx, case: Dict[str, Any]) -> None:
             tl.simplify(cx) if cx is not None else tl.simplify()
         except Exception:  # noqa: BLE001
             pass
+        if case.get("twin"):
+            # a list that prints like the first one, right after it: every call is judged against its own operands
+            t2 = P.mk_list(case["twin"])
+            try:
+                t2.simplify(cx) if cx is not None else t2.simplify()
+            except Exception:  # noqa: BLE001
+                pass
+            ctx.count("twin-calls")
     elif kind == "contract":
         try:
             c = P.mk_contract(case["contract"], simplify=case.get("at_construction", True))
@@ -332,7 +340,27 @@ def list_case(rng) -> Dict[str, Any]:  # noqa: C901
         terms.insert(rng.randint(0, len(terms)), nt)
     if len(terms) > 6:
         terms = terms[:6]
-    return {"kind": "list", "family": fam, "style": style, "terms": terms, "ctx": ctx_}
+    case = {"kind": "list", "family": fam, "style": style, "terms": terms, "ctx": ctx_}
+    if rng.random() < 0.15:
+        tw = print_alike_twin(rng, terms)
+        if tw is not None:
+            case["twin"] = tw
+    return case
+
+
+def print_alike_twin(rng, terms: List[Dict[str, Any]]) -> Optional[List[Dict[str, Any]]]:
+    """The same list with one coefficient moved by 1-3e-4 relative: it prints like the original (four significant
+    digits) but is a different list; simplified right after the original, in the same process."""
+    cands = [(i, v) for i, t in enumerate(terms) for v, c in t["c"].items() if c != 0]
+    rng.shuffle(cands)
+    for i, v in cands[:6]:
+        c = terms[i]["c"][v]
+        c2 = c * (1 + rng.choice([1e-4, 2e-4, 3e-4, -1e-4, -2e-4]))
+        if c2 != c and "%.4g" % c2 == "%.4g" % c:
+            out = [dict(c=dict(t["c"]), k=t["k"]) for t in terms]
+            out[i]["c"][v] = c2
+            return out
+    return None
 
 
 def gen_case(rng) -> Dict[str, Any]:
